@@ -1163,7 +1163,7 @@ class SyncManager(Runnable):
                     log.debug("same remote oid")
                     if e[synced].sync_hash != e[synced].hash:
                         found = e
-                    elif not e[synced].changed:
+                    elif not e[synced].changed and not (e[changed].oid and self.providers[changed].exists_oid(e[changed].oid)):
                         log.info("merge split entries")
                         sync[synced] = e[synced]
                     elif e[synced].otype == DIRECTORY and sync[synced].otype == FILE:
